@@ -20,8 +20,9 @@ ID = "C12"
 LEVEL = "exploration"
 RULE = (
     "(a) Hypothesis: k in 2..5 independent workloads (frame generators of stream_frames / flat_stream_to_frames of either "
-    "integration over all physical types, and parse_jelly_flat generators) whose next() steps are interleaved by a drawn "
-    "schedule owned by the harness; (b) a drawn prior history of 0..5 other streams created, partly used, abandoned or "
+    "integration over all physical types, statement-by-statement drivers of stream.triple()/quad() that hand control back "
+    "while rows are pending, and parse_jelly_flat generators; workloads with equal configuration may share one "
+    "SerializerOptions object, as callers do) whose steps are interleaved by a drawn schedule owned by the harness; (b) a drawn prior history of 0..5 other streams created, partly used, abandoned or "
     "failed with an exception before the workload runs; oracle: every workload's output (frame bytes / parsed events) is "
     "identical to its solo run in a fresh state. (c) real threads (start barrier, switch interval 1e-6 s) each running a "
     "workload repeatedly, compared with the solo bytes. (d) subprocesses with PYTHONHASHSEED in {0,1,2,random} serialising "
@@ -46,9 +47,11 @@ def workload(draw, pool_stmts):
     base = pool_stmts[arity]
     idx = draw(st.lists(st.integers(0, len(base) - 1), min_size=1, max_size=10))
     stmts = [base[i] for i in idx]
+    entry = draw(st.sampled_from(["stream_frames", "flat_stream_to_frames", "steps", "steps"])) if phys != "GRAPHS" else "stream_frames"
     return {"type": "ser", "integration": integration, "phys": phys, "statements": stmts,
-            "entry": draw(st.sampled_from(["stream_frames", "flat_stream_to_frames"])) if phys != "GRAPHS" else "stream_frames",
-            "logical": 1 if phys == "TRIPLES" else 2, "delimited": True, "frame_size": draw(st.sampled_from([1, 2, 3])),
+            "entry": entry, "share_options": draw(st.booleans()),
+            "logical": 1 if phys == "TRIPLES" else 2, "delimited": True,
+            "frame_size": draw(st.sampled_from([1, 2, 3] if entry != "steps" else [2, 5, 250])),
             "preset": draw(gen.preset_for(stmts)),
             "params": {"generalized": False, "rdf_star": False, "stream_name": "",
                        "namespace_declarations": False}}
@@ -61,12 +64,50 @@ def interleave_case(draw):
     k = draw(st.integers(2, 5))
     wl = [draw(workload(pool)) for _ in range(k)]
     history = [draw(workload(pool)) for _ in range(draw(st.integers(0, 3)))]
+    # make configuration twins (same options, different statements) likely: they are the ones that can share an
+    # options object
+    every = history + wl
+    for i in range(1, len(every)):
+        if every[i]["type"] != "ser" or not draw(st.booleans()):
+            continue
+        twins = [w for w in every[:i] if w["type"] == "ser" and len(w["statements"][0]) == len(every[i]["statements"][0])
+                 and w["integration"] == every[i]["integration"]]
+        if twins:
+            t = twins[draw(st.integers(0, len(twins) - 1))]
+            for key in ("phys", "logical", "frame_size", "params"):
+                every[i][key] = t[key]
+            if every[i]["phys"] == "GRAPHS":
+                every[i]["entry"] = "stream_frames"
+            big = [max(a, b) for a, b in zip(t["preset"], every[i]["preset"])]
+            every[i]["preset"] = t["preset"] = big
+            every[i]["share_options"] = t["share_options"] = True
     return {"kind": "interleave", "workloads": wl, "history": history,
             "history_mode": draw(st.lists(st.sampled_from(["abandon", "partial", "fail", "complete"]), min_size=3, max_size=3)),
             "schedule": draw(st.lists(st.integers(0, 4), max_size=60))}
 
 
-def make_gen(w):
+def options_for(w, shared):
+    """SerializerOptions for a workload; workloads that ask for it and have the same configuration share ONE instance
+    (re-using an options object for several streams is ordinary use)."""
+    if shared is None or not w.get("share_options"):
+        return pyj.make_options(w)
+    key = json.dumps({k: w[k] for k in ("integration", "phys", "logical", "frame_size", "preset", "params")}, sort_keys=True)
+    if key not in shared:
+        shared[key] = pyj.make_options(w)
+    return shared[key]
+
+
+def stream_for(w, shared):
+    opts = options_for(w, shared)
+    cls = pyj.stream_class(w["phys"])
+    if w["integration"] == "generic":
+        from pyjelly.integrations.generic.serialize import GenericSinkTermEncoder
+
+        return cls(encoder=GenericSinkTermEncoder(lookup_preset=opts.lookup_preset), options=opts)
+    return cls.for_rdflib(opts)
+
+
+def make_gen(w, shared=None):
     """A generator yielding comparable output items for the workload."""
     if w["type"] == "parse":
         data, _, _ = scen.source_bytes(w["src"])
@@ -82,11 +123,24 @@ def make_gen(w):
     else:
         from pyjelly.integrations.rdflib import serialize as ser
     stmts = pyj.conv_stmts(w["statements"], integ)
+    if w["entry"] == "steps":
+        # statement-level driving: control returns to the scheduler after every triple()/quad() call, i.e. also
+        # while rows are pending in the stream's flow
+        stream = stream_for(w, shared)
+
+        def g():
+            stream.enroll()
+            for s_ in stmts:
+                f = stream.triple(s_) if w["phys"] == "TRIPLES" else stream.quad(s_)
+                yield f.SerializeToString(deterministic=True).hex() if f is not None else "-"
+            f = stream.flow.to_stream_frame()
+            yield f.SerializeToString(deterministic=True).hex() if f is not None else "-"
+        return g()
     if w["entry"] == "stream_frames":
-        stream = pyj.make_stream(w, integ)
+        stream = stream_for(w, shared)
         frames = ser.stream_frames(stream, (s for s in stmts))
     else:
-        frames = ser.flat_stream_to_frames((s for s in stmts), pyj.make_options(w))
+        frames = ser.flat_stream_to_frames((s for s in stmts), options_for(w, shared))
 
     def g():
         for f in frames:
@@ -98,10 +152,10 @@ def solo(w):
     return list(make_gen(w))
 
 
-def play_history(case):
+def play_history(case, shared=None):
     for w, mode in zip(case["history"], case["history_mode"]):
         try:
-            g = make_gen(w)
+            g = make_gen(w, shared)
             if mode == "abandon":
                 continue
             if mode == "partial":
@@ -128,8 +182,9 @@ def body_interleave(case, acc):
         want = [solo(w) for w in wl]
     except Exception as exc:  # noqa: BLE001
         return Violation(f"C12:solo-raises:{type(exc).__name__}", f"{exc!r}", case)
-    play_history(case)
-    gens = [make_gen(w) for w in wl]
+    shared = {}
+    play_history(case, shared)
+    gens = [make_gen(w, shared) for w in wl]
     got = [[] for _ in wl]
     active = list(range(len(wl)))
     switches = 0
@@ -151,12 +206,15 @@ def body_interleave(case, acc):
             return Violation(f"C12:interleaved-raises:{type(exc).__name__}", f"workload {i} raised {exc!r} when interleaved, not alone", case)
     if acc is not None:
         sers = [w for w in wl if w["type"] == "ser"]
-        shared = False
+        shared_iris = False
         if len(sers) >= 2:
             sets = [{i for s in w["statements"] for t in s for i in T.iris_of(t)} for w in sers]
-            shared = any(a & b for k, a in enumerate(sets) for b in sets[k + 1:])
-        acc.case(case, switches >= 10 and shared, ["workloads_%d" % len(wl), "history_%d" % len(case["history"])]
-                 + (["switches_ge_10"] if switches >= 10 else []) + (["shared_iris"] if shared else []))
+            shared_iris = any(a & b for k, a in enumerate(sets) for b in sets[k + 1:])
+        n_sharing = sum(1 for w in wl + case["history"] if w.get("share_options") and w["type"] == "ser")
+        acc.case(case, switches >= 10 and shared_iris, ["workloads_%d" % len(wl), "history_%d" % len(case["history"])]
+                 + (["switches_ge_10"] if switches >= 10 else []) + (["shared_iris"] if shared_iris else [])
+                 + (["shared_options_object"] if len(shared) < n_sharing else [])
+                 + (["statement_level_steps"] if any(w.get("entry") == "steps" for w in wl) else []))
     for i, (g, w) in enumerate(zip(got, want)):
         if g != w:
             return Violation(f"C12:output-depends-on-other-streams:{wl[i]['type']}", f"workload {i} ({wl[i]['type']}, "
@@ -174,12 +232,14 @@ def body_threads(case, acc):
     old = sys.getswitchinterval()
     sys.setswitchinterval(1e-6)
 
+    tshared = {}
+
     def run(i):
         barrier.wait()
         bad = None
         for _ in range(reps):
             try:
-                out = list(make_gen(wl[i]))
+                out = list(make_gen(wl[i], tshared))
             except Exception as exc:  # noqa: BLE001
                 bad = f"raised {exc!r}"
                 break
